@@ -3,6 +3,7 @@ package builder
 import (
 	"errors"
 	"fmt"
+	"sort"
 
 	"github.com/mna/pigeon/ast"
 )
@@ -31,9 +32,17 @@ func PrepareGrammar(grammar *ast.Grammar) (bool, error) {
 
 // ComputeNullables evaluates nullable nodes.
 func ComputeNullables(rules map[string]*ast.Rule) {
-	// Compute which rules in a grammar are nullable
-	for _, rule := range rules {
-		rule.NullableVisit(rules)
+	// Compute which rules in a grammar are nullable. The per-expression flags
+	// are overwritten by every visit that reaches them, so the rules are
+	// visited in a fixed order to make the result (and the generated parser)
+	// independent of the map iteration order.
+	names := make([]string, 0, len(rules))
+	for name := range rules {
+		names = append(names, name)
+	}
+	sort.Strings(names)
+	for _, name := range names {
+		rules[name].NullableVisit(rules)
 	}
 }
 
